@@ -14,6 +14,8 @@ import ZCV.Model.Resources
 import ZCV.Model.Logger
 import ZCV.Spec.Logger
 import ZCV.CodecElab
+import ZCV.Model.LoggerSetup
+import ZCV.Model.UrlPath
 /-! Line-protocol driver: one request per line, one answer per line. Imports Spec + Model + Gen only. -/
 open ZCV ZCV.SExp ZCV.Codec ZCV.Cfg
 
@@ -198,6 +200,35 @@ def handle (st : DState) : SExp → DState × SExp
          | .ok sc => .list [.atom "ok", encSchema sc, ofBool (Conf.schemaOK sc)]
          | .error f => encEFail f)
       | _, _ => .list [.atom "bad-request", .atom "elab"])
+  -- (logsetup ((eventlog|logger name|none level t|f ((fmt level)…))…) (i j …)) → ((names of the loggers returned…) ((key level prop ((id fmt|none level)…))…))
+  | .list [.atom "logsetup", .list facs, .list calls] =>
+    (st, match facs.mapM (fun (f : SExp) => match f with
+          | .list [.atom kind, nm, lv, pr, .list hs] => do
+            let level ← getInt? lv
+            let hcfgs ← hs.mapM fun (h : SExp) => match h with
+              | .list [.str fmt, hl] => (getInt? hl).map fun l => ({ cls := [], level := l, format := fmt, style := [], dateformat := none } : LogSetup.HandlerCfg)
+              | _ => none
+            pure (if kind == "eventlog" then LogSetup.eventLogFactoryOf level hcfgs
+                  else LogSetup.loggerFactoryOf (optStr nm) level (getBool pr) hcfgs)
+          | _ => none), calls.mapM getNat? with
+      | some fs, some cs =>
+        let step := fun (acc : List LogSetup.LoggerFactory × LogSetup.World × List Str) (i : Nat) =>
+          match acc.1[i]? with
+          | some f =>
+            match f.call acc.2.1 with
+            | (nm, f', w') => (acc.1.set i f', w', acc.2.2 ++ [nm])
+          | none => acc
+        let r := cs.foldl step (fs, ({ loggers := [], nextId := 0 } : LogSetup.World), [])
+        .list [.list (r.2.2.map .str),
+               .list (r.2.1.loggers.map fun (k, ls) => .list [.str k, ofInt ls.level, ofBool ls.propagate,
+                 .list (ls.handlers.map fun h => .list [ofNat h.id, (match h.cfg with | some c => .str c.format | none => .atom "none"),
+                                                       (match h.cfg with | some c => ofInt c.level | none => .atom "none")])])]
+      | _, _ => .list [.atom "bad-request", .atom "logsetup"])
+  -- (urlpath "base" "s") → (quote unquote pathToUrl urlToPath join(base,s) defragUrl defragFrag zjoin(base,s) znormalize zdefragUrl joinInDomain defragInDomain)
+  | .list [.atom "urlpath", .str base, .str u] =>
+    (st, .list [.str (UrlPath.quote u), .str (UrlPath.unquote u), .str (UrlPath.pathToUrl u), .str (UrlPath.urlToPath u),
+                .str (UrlPath.join base u), .str (UrlPath.defragUrl u), .str (UrlPath.defragFrag u), .str (UrlPath.zjoin base u),
+                .str (UrlPath.znormalize u), .str (UrlPath.zdefragUrl u), ofBool (UrlPath.joinInDomain base u), ofBool (UrlPath.defragInDomain u)])
   | .list [.atom "ping"] => (st, .atom "pong")
   | _ => (st, .list [.atom "bad-request"])
 
